@@ -75,6 +75,10 @@ type InvokeInfo struct {
 	Ran             []int  // fn ids entered during the op (in order)
 	RanOK           []int
 	Invoked         int
+	// MidKeys: keys whose constructor was registered from inside a body
+	// while this Invoke was running: whether a consumer resolved in the
+	// same Invoke saw it depends on the order of resolution (unspecified)
+	MidKeys map[MKey]bool
 }
 
 type VResult struct {
@@ -146,6 +150,17 @@ type VOpts struct {
 	// signature and option set, so the only legitimate rejections are
 	// duplicates and cycles.
 	ValidSigs bool
+}
+
+// sideFnOf finds the constructor spec with the given id among the functions
+// that bodies of the case register (Fn.SideFn).
+func sideFnOf(c *Case, id int) *Fn {
+	for _, op := range c.Ops {
+		if op.F != nil && op.F.SideFn != nil && op.F.SideFn.ID == id {
+			return op.F.SideFn
+		}
+	}
+	return nil
 }
 
 func navigate(args []Prov, path string) (Prov, bool) {
@@ -240,6 +255,10 @@ func Validate(c *Case, tr *Trace, vo VOpts) *VResult {
 		}
 		if out.Panicked && op.K != OpInvoke {
 			v.add(CEscapedPanic, i, "%s panicked: %v", op.K, out.PanicVal)
+		}
+		if out.Panicked && op.K == OpInvoke && !userPanic(out.PanicVal) {
+			// a panic that no generated function body raised: dig's own
+			v.add(CEscapedPanic, i, "Invoke panicked on its own: %v", out.PanicVal)
 		}
 		switch op.K {
 		case OpScope:
@@ -370,6 +389,21 @@ func (v *VResult) validateInvoke(c *Case, tr *Trace, rt *RT, i int, op Op, out O
 		return
 	}
 
+	for _, ev := range tr.Events(i) {
+		if ev.Kind == EvSide && ev.SideErr == nil {
+			if sf := sideFnOf(c, ev.Fn); sf != nil {
+				if ii.MidKeys == nil {
+					ii.MidKeys = map[MKey]bool{}
+				}
+				for _, k := range NewMFn(sf, nil, KCtor, 0).Keys() {
+					ii.MidKeys[k] = true
+				}
+			}
+		}
+	}
+	if ii.MidKeys != nil {
+		ii.FaultFree = false // no verdict prediction for this Invoke
+	}
 	// Snapshot leaf availability before execution (registrations do not
 	// change during an Invoke).
 	for _, ev := range tr.Events(i) {
@@ -379,6 +413,24 @@ func (v *VResult) validateInvoke(c *Case, tr *Trace, rt *RT, i int, op Op, out O
 			continue
 		}
 		switch ev.Kind {
+		case EvSide:
+			// a constructor body registered another constructor while this
+			// Invoke was running: from here on it is part of the container
+			// (its key is fresh and nothing registered consumes it, so the
+			// resolution in progress cannot depend on it)
+			v.Labels["registration-from-inside-a-body"] = true
+			if ev.SideErr == nil {
+				if sf := sideFnOf(c, ev.Fn); sf != nil {
+					mf := NewMFn(sf, nil, KCtor, m.scope(ev.SideScope))
+					mf.Op = i
+					if dup := m.DupProvide(mf); dup != "" {
+						v.add(CVerdictProvide, i, "a Provide made from inside a body was accepted although %s", dup)
+					}
+					m.AddCtor(mf)
+				}
+			} else if classify(ev.SideErr) == ClCycle {
+				v.add(CSpuriousCycle, i, "a Provide of a parameterless constructor made from inside a body was rejected as a cycle: %v", ev.SideErr)
+			}
 		case EvEnter:
 			var g *MFn
 			if ev.Fn == fn.ID {
@@ -407,7 +459,11 @@ func (v *VResult) validateInvoke(c *Case, tr *Trace, rt *RT, i int, op Op, out O
 				if g.OkExec >= 0 {
 					v.add(CExecTwice, i, "%v executed again (exec %d) after successful exec %d", g, ev.Exec, g.OkExec)
 				}
-				if !ii.MayRun[g.ID] {
+				midFn := false
+				if ii.MidKeys != nil && g.F != nil && sideFnOf(c, g.ID) == g.F {
+					midFn = true // registered (and perhaps already demanded) during this very Invoke
+				}
+				if !ii.MayRun[g.ID] && !midFn {
 					v.add(COutsideClosure, i, "%v ran but is not reachable from the invoked function (mayRun=%v)", g, sortedIDs(ii.MayRun))
 				}
 			}
@@ -418,6 +474,10 @@ func (v *VResult) validateInvoke(c *Case, tr *Trace, rt *RT, i int, op Op, out O
 				obs, ok := navigate(ev.Args, l.Path)
 				if !ok {
 					v.add(CForeign, i, "%v: cannot navigate to leaf %s", g, l.Path)
+					continue
+				}
+				if ii.MidKeys[l.Key] {
+					v.Labels["resolved-while-being-registered"] = true
 					continue
 				}
 				v.checkLeaf(rt, i, ii, g, l, obs, okAtStart)
@@ -509,7 +569,7 @@ func (v *VResult) validateInvoke(c *Case, tr *Trace, rt *RT, i int, op Op, out O
 	if out.Class != ClOK && ii.Invoked > 1 {
 		v.add(CInvokedOnce, i, "invoked function ran %d times", ii.Invoked)
 	}
-	if out.Class == ClOK && !zoneSkip && !ii.Zones.SoftDecorated && !ii.Zones.OptDecoUnavail {
+	if out.Class == ClOK && !zoneSkip && !ii.Zones.SoftDecorated && !ii.Zones.OptDecoUnavail && ii.MidKeys == nil {
 		for id := range ii.MustRun {
 			if g := m.Fns[id]; g != nil && g.OkExec < 0 {
 				v.add(CMustRunMissing, i, "Invoke succeeded but %v in its closure has not run", g)
@@ -822,6 +882,13 @@ func (v *VResult) checkLeaf(rt *RT, op int, ii *InvokeInfo, g *MFn, l MLeaf, obs
 			}
 			// producer has not run: fall through to the zero-value rules
 		}
+		if obs.Tok == 0 && ii.MidKeys != nil && l.Opt {
+			// what was available when this optional leaf was resolved
+			// depends on whether the registration made during this Invoke
+			// had happened yet: no claim
+			v.Labels["resolved-while-being-registered"] = true
+			return
+		}
 		if obs.Tok == 0 {
 			if l.Opt && exp != nil && !m.LeafAvailable(g, l) {
 				v.Labels["optional-above-hole"] = true
@@ -1001,7 +1068,9 @@ func (v *VResult) mustRunOfSiblings(g *MFn, l MLeaf, okAtStart map[int]bool) map
 	}
 	pseudo := &MFn{ID: -1, Kind: g.Kind, View: g.View, Home: g.Home, F: g.F, OkExec: -1, Slots: g.Slots}
 	for _, o := range g.Leaves {
-		if o.ObjPath == l.ObjPath && o.Path != l.Path && !(o.IsGroup && o.Soft) {
+		// every non-soft field of the object is built before its soft
+		// fields, nested parameter objects included (as a whole)
+		if strings.HasPrefix(o.Path, l.ObjPath+".") && o.Path != l.Path && !(o.IsGroup && o.Soft) {
 			pseudo.Leaves = append(pseudo.Leaves, o)
 		}
 	}
